@@ -1,4 +1,4 @@
-// tr_tokens: regenerates, from the SOURCE of gomacro's go/etoken + go/parser and of $GOROOT/src/go/token + go/parser,
+// tr_c24tokens: regenerates, from the SOURCE of gomacro's go/etoken + go/parser and of $GOROOT/src/go/token + go/parser,
 // the tables the C24 (and C23) models rest on, as Coq definitions in <out>/GenTokens.v:
 //
 //	std_<NAME> : N                     numeric value of every go/token constant (iota counted in the const block)
@@ -55,7 +55,7 @@ func src(n ast.Node) string {
 func parseFile(path string) *ast.File {
 	f, err := parser.ParseFile(fset, path, nil, 0)
 	if err != nil {
-		fmt.Fprintln(os.Stderr, "tr_tokens:", err)
+		fmt.Fprintln(os.Stderr, "tr_c24tokens:", err)
 		os.Exit(2)
 	}
 	return f
@@ -106,7 +106,7 @@ func stdTokens(f *ast.File) *tokTable {
 				break
 			}
 			if i > 0 && (vs.Type != nil || len(vs.Values) != 0) {
-				fmt.Fprintln(os.Stderr, "tr_tokens: unexpected token const spec", src(vs))
+				fmt.Fprintln(os.Stderr, "tr_c24tokens: unexpected token const spec", src(vs))
 				os.Exit(2)
 			}
 			for _, n := range vs.Names {
@@ -165,23 +165,23 @@ func stdPrec(f *ast.File, t *tokTable) (map[string]int64, int64) {
 	fd := funcDecl(f, "Token", "Precedence")
 	out := map[string]int64{}
 	if fd == nil || len(fd.Body.List) != 2 {
-		fmt.Fprintln(os.Stderr, "tr_tokens: Precedence has an unexpected shape")
+		fmt.Fprintln(os.Stderr, "tr_c24tokens: Precedence has an unexpected shape")
 		os.Exit(2)
 	}
 	sw, ok := fd.Body.List[0].(*ast.SwitchStmt)
 	if !ok || src(sw.Tag) != fd.Recv.List[0].Names[0].Name {
-		fmt.Fprintln(os.Stderr, "tr_tokens: Precedence: expected switch on the receiver")
+		fmt.Fprintln(os.Stderr, "tr_c24tokens: Precedence: expected switch on the receiver")
 		os.Exit(2)
 	}
 	for _, c := range sw.Body.List {
 		cc := c.(*ast.CaseClause)
 		if len(cc.Body) != 1 {
-			fmt.Fprintln(os.Stderr, "tr_tokens: Precedence: case body")
+			fmt.Fprintln(os.Stderr, "tr_c24tokens: Precedence: case body")
 			os.Exit(2)
 		}
 		ret, ok := cc.Body[0].(*ast.ReturnStmt)
 		if !ok || len(ret.Results) != 1 {
-			fmt.Fprintln(os.Stderr, "tr_tokens: Precedence: case body is not a return")
+			fmt.Fprintln(os.Stderr, "tr_c24tokens: Precedence: case body is not a return")
 			os.Exit(2)
 		}
 		v := intValue(ret.Results[0], t)
@@ -191,7 +191,7 @@ func stdPrec(f *ast.File, t *tokTable) (map[string]int64, int64) {
 	}
 	ret, ok := fd.Body.List[1].(*ast.ReturnStmt)
 	if !ok || len(ret.Results) != 1 {
-		fmt.Fprintln(os.Stderr, "tr_tokens: Precedence: final return")
+		fmt.Fprintln(os.Stderr, "tr_c24tokens: Precedence: final return")
 		os.Exit(2)
 	}
 	return out, intValue(ret.Results[0], t)
@@ -213,7 +213,7 @@ func intValue(e ast.Expr, t *tokTable) int64 {
 			return v
 		}
 	}
-	fmt.Fprintln(os.Stderr, "tr_tokens: not an integer constant:", src(e))
+	fmt.Fprintln(os.Stderr, "tr_c24tokens: not an integer constant:", src(e))
 	os.Exit(2)
 	return 0
 }
@@ -246,7 +246,7 @@ func forkTokens(f *ast.File, t *tokTable) (names []string, vals map[string]int64
 		for i, sp := range gd.Specs {
 			vs := sp.(*ast.ValueSpec)
 			if i > 0 && (len(vs.Values) != 0 || vs.Type != nil) {
-				fmt.Fprintln(os.Stderr, "tr_tokens: unexpected etoken const spec", src(vs))
+				fmt.Fprintln(os.Stderr, "tr_c24tokens: unexpected etoken const spec", src(vs))
 				os.Exit(2)
 			}
 			v := evalConst(first.Values[0], int64(i), t)
@@ -278,7 +278,7 @@ func evalConst(e ast.Expr, iota int64, t *tokTable) int64 {
 		case *ast.BinaryExpr:
 			return constant.BinaryOp(ev(e.X), e.Op, ev(e.Y))
 		}
-		fmt.Fprintln(os.Stderr, "tr_tokens: cannot evaluate constant", src(e))
+		fmt.Fprintln(os.Stderr, "tr_c24tokens: cannot evaluate constant", src(e))
 		os.Exit(2)
 		return nil
 	}
@@ -486,7 +486,7 @@ func main() {
 
 	var sb strings.Builder
 	w := func(f string, a ...interface{}) { fmt.Fprintf(&sb, f, a...) }
-	w("(* GENERATED by translators/tr_tokens from %s/go/{etoken/token.go,parser/parser.go,parser/global.go} and %s/go/{token/token.go,parser/parser.go}. DO NOT EDIT. *)\n", *repo, gs)
+	w("(* GENERATED by translators/tr_c24tokens from %s/go/{etoken/token.go,parser/parser.go,parser/global.go} and %s/go/{token/token.go,parser/parser.go}. DO NOT EDIT. *)\n", *repo, gs)
 	w("From Coq Require Import List NArith ZArith Bool String.\nImport ListNotations.\nOpen Scope N_scope.\n\n")
 
 	// ---- std token constants
@@ -741,5 +741,5 @@ func main() {
 		fmt.Fprintln(os.Stderr, err)
 		os.Exit(2)
 	}
-	fmt.Printf("tr_tokens: %d std tokens, %d fork tokens, %d opaque\n", len(t.names), len(extNames), nOpaque)
+	fmt.Printf("tr_c24tokens: %d std tokens, %d fork tokens, %d opaque\n", len(t.names), len(extNames), nOpaque)
 }
